@@ -435,6 +435,33 @@ func (f *Frame) applyContract(spec *UnitSpec, name string, c *ssa.CallCommon, si
 		}
 		u.assume(st, t)
 	}
+	// hand-over clauses
+	addrOfArg := func(p string) (Term, bool) {
+		tv, ok := argMap[p]
+		if !ok {
+			return Term{}, false
+		}
+		switch tv.T.Sort {
+		case SSlice:
+			return App("s_arr", SInt, tv.T), true
+		case SInt:
+			return tv.T, true
+		case SIface:
+			return App("iint", SInt, tv.T), true
+		}
+		return Term{}, false
+	}
+	for _, p := range spec.Consumes {
+		if a, ok := addrOfArg(p); ok {
+			u.addObl(st, "once@"+anchor, p+":the-object-handed-over-was-not-handed-over-before", Not(Select(u.handoffGet(st, ghConsumed), a)), nil)
+			u.handoffAdd(st, ghConsumed, a)
+		}
+	}
+	for _, p := range spec.Retains {
+		if tv, ok := argMap[p]; ok && tv.T.Sort == SSlice {
+			u.handoffAdd(st, ghRetained, App("s_arr", SInt, tv.T))
+		}
+	}
 	// recursion: termination measure
 	if spec == u.spec && spec.Decr != nil && u.entryMeasure.S != "" {
 		tv, ok := env.Term(spec.Decr.E, spec.Decr.Line)
@@ -686,6 +713,9 @@ func (f *Frame) execBuiltin(b *ssa.Builtin, c *ssa.CallCommon, args []Val, st *S
 				srcElem = func(j Term) Term {
 					return Select(Select(arr, App("s_arr", SInt, args[1].T)), App("+", SInt, App("s_off", SInt, args[1].T), j))
 				}
+			}
+			if class == elemClass(types.Typ[types.Uint8]) {
+				u.retainedWrite(st, App("s_arr", SInt, args[0].T))
 			}
 			n := u.defs.Fresh("ncopy", SInt)
 			dOff := App("s_off", SInt, args[0].T)
